@@ -583,6 +583,7 @@ static std::string exec(const std::vector<std::string>& t, std::string& preds) {
             const bool good = std::string(u.search().data(), u.search().size()) == want && u.is_null(upa::url::QUERY) == sp.empty();
             preds += good ? " ser=1" : " ser=0";
         }
+        if (!u.is_valid()) r = "?";   // results read from the params object of an invalid URL are not compared
         return "r=" + r + " " + obj_line(u, preds);
     }
     if (op == "psp" && t.size() >= 3) {
